@@ -54,6 +54,7 @@ func Universe() (defs []Defv, headers [][]any) {
 		{"litq", str, idl.VS(`a"b'c`)},
 		{"litesc", str, idl.VS(`x\n\t\x41 y`)},
 		{"litpunct", str, idl.VS("a,b;c{d}(e)#f//g/*h*/")},
+		{"litutf8", str, idl.VS("héllo € 中")},
 		{"bool", idl.T(idl.Bool), idl.VB(true)},
 		{"ident", idl.RawT("Foo"), &idl.Value{K: idl.VRawIdent, Raw: "Foo.BAR"}},
 		{"identinc", idl.RawT("inc.Foo"), &idl.Value{K: idl.VRawIdent, Raw: "inc.Foo.BAR"}},
